@@ -109,6 +109,9 @@ def build(tier, seed):
         ("ref/aes/packcrc", {"folders": [{"n": 3, "chain": [{"m": "LZMA2"}, {"m": "7zAES", "cycles": 6}], "crc": "sub"}], "header": "lzma+crc", "pack_crc": True}),
         # pack CRCs defined for some of the packed streams only: test() can vouch for those, not for the archive (third hunt)
         ("ref/partial-packcrc", {"folders": [{"n": 1, "chain": [{"m": "COPY"}], "crc": "sub"}, {"n": 1, "chain": [{"m": "LZMA2"}], "crc": "sub"}, {"n": 1, "chain": [{"m": "COPY"}], "crc": "sub"}], "header": "raw", "pack_crc": "partial"}),
+        # packed streams that do not start right behind the signature header (PackPos > 0): every place that positions the
+        # decoder must add it, reset() included (seed C12c-reset-ignores-packpos)
+        ("ref/packpos/3", {"folders": [{"n": 2, "chain": [{"m": "LZMA2"}], "crc": "sub"}, {"n": 1, "chain": [{"m": "COPY"}], "crc": "sub"}], "header": "raw", "packpos": 37}),
         ("ref/4folders", {"folders": [{"n": 1, "chain": [{"m": "COPY"}], "crc": "sub"}] * 3, "header": "lzma+crc"}),
     ]
     for label, lay in ref_layouts:
